@@ -539,11 +539,31 @@ theorem fb_inv_almos_partial (F : Field) (hF : F.wellFormed = true) (hirr : Irre
   Relic.Lemmas.FbInvEuclid.invAlmos_partial F hF hirr w a
 
 /-- fb_inv_exgcd as coded (swap when the degree difference is negative, u += v·z^j, g1 += g2·z^j, final conditional addition of f):
-    zero is reported; whatever is returned satisfies a·c = 1 in GF(2)[z]/(f) (f need not be irreducible).
-    Full statement, not proved: also `bitLen c ≤ F.m` and termination within the fuel. -/
+    zero is reported; whatever is returned satisfies a·c = 1 in GF(2)[z]/(f) (f need not be irreducible) and, for a reduced a, is reduced
+    (invariant: deg g1 + deg v ≤ m, deg g2 + deg u ≤ m, so the cofactor has degree ≤ m and the final addition of f clears z^m).
+    Full statement, not proved: termination within the fuel. -/
 theorem fb_inv_exgcd_partial (F : Field) (hF : F.wellFormed = true) (a : Nat) :
-    (a = 0 → FbInv.invExgcd F a = none) ∧ (∀ c, FbInv.invExgcd F a = some c → F.mul a c = 1) :=
-  Relic.Lemmas.FbInvEuclid.invExgcd_partial F hF a
+    (a = 0 → FbInv.invExgcd F a = none) ∧ (∀ c, FbInv.invExgcd F a = some c → F.mul a c = 1 ∧ (bitLen a ≤ F.m → bitLen c ≤ F.m)) :=
+  ⟨(Relic.Lemmas.FbInvEuclid.invExgcd_partial F hF a).1, fun c h =>
+    ⟨(Relic.Lemmas.FbInvEuclid.invExgcd_partial F hF a).2 c h, fun ha => Relic.Lemmas.FbInvEuclid.invExgcd_isElem F hF a c ha h⟩⟩
+
+/-- the value returned by the models of fb_inv_binar / fb_inv_almos / fb_inv_exgcd is the specification's inverse: the model column and
+    the specification of the driver agree whenever a model returns -/
+theorem fb_inv_euclid_value (F : Field) (hF : F.wellFormed = true) (hz : FrobFix F) (hirr : Irreducible (toPoly F.f)) (w a c : Nat)
+    (ha : bitLen a ≤ F.m)
+    (h : FbInv.invBinar w F a = some c ∨ FbInv.invAlmos w F a = some c ∨ FbInv.invExgcd F a = some c) : c = F.inv a := by
+  have ha0 : a ≠ 0 := by
+    rintro rfl
+    rcases h with h | h | h
+    · rw [(fb_inv_binar_partial F hF hirr w 0).1 rfl] at h; exact absurd h (by simp)
+    · rw [(fb_inv_almos_partial F hF hirr w 0).1 rfl] at h; exact absurd h (by simp)
+    · rw [(fb_inv_exgcd_partial F hF 0).1 rfl] at h; exact absurd h (by simp)
+  have hc : bitLen c ≤ F.m ∧ F.mul a c = 1 := by
+    rcases h with h | h | h
+    · exact (fb_inv_binar_partial F hF hirr w a).2 c h
+    · exact (fb_inv_almos_partial F hF hirr w a).2 c h
+    · exact ⟨((fb_inv_exgcd_partial F hF a).2 c h).2 ha, ((fb_inv_exgcd_partial F hF a).2 c h).1⟩
+  exact inv_unique F hF a c (F.inv a) hc.1 (isElem_inv F hF a) hc.2 (inv_spec F hF hz hirr a ha ha0)
 
 /-- the models run to completion and return the inverse on a concrete field: GF(2^7), a = z^6 + z^5 + z^2 (all three, 64-bit digits) -/
 example : FbInv.invBinar 64 ⟨7, 131⟩ 100 = some ((⟨7, 131⟩ : Field).inv 100) ∧ FbInv.invAlmos 64 ⟨7, 131⟩ 100 = some ((⟨7, 131⟩ : Field).inv 100) ∧
